@@ -172,6 +172,25 @@ def check(ctx: Ctx, ev: Evidence) -> list[Finding]:
         out.append(Finding("C06-R5", f"{f5.qualname} | progress > EOF size", "an EOF announcing fewer bytes than already received does not declare the file size fault", loc(f5, f5.node)))
     if not (lt and adds):
         out.append(Finding("C06-R5", f"{f5.qualname} | tail gap", "the gap between the last received byte and the EOF file size is not recorded as lost", loc(f5, f5.node)))
+    # R7: objects handed to a PDU constructor are not mutated afterwards (the PDU keeps the list by reference)
+    from ..astq import mutation_after_escape
+    ev.rule("C06-R7", "a list handed to a PDU constructor is not mutated afterwards in the same function (spacepackets PDUs keep their list arguments by reference and fix length fields at construction)", 1)
+    n_sites = 0
+    for fi in prog.functions.values():
+        if fi.cls != DH:
+            continue
+        is_pdu_ctor = lambda c: isinstance(c.func, ast.Name) and c.func.id.endswith("Pdu")  # noqa: E731
+        sites = [n for n in ast.walk(fi.node) if isinstance(n, ast.Call) and is_pdu_ctor(n) and any(isinstance(a, ast.Name) for a in list(n.args) + [k.value for k in n.keywords])]
+        if not sites:
+            continue
+        n_sites += len(sites)
+        muts = mutation_after_escape(fi.node, is_pdu_ctor)
+        ev.inst("C06-R7", f"{fi.qualname}: {len(sites)} PDU constructions take local objects, {len(muts)} later mutations of such an object", "ok" if not muts else "violation", loc(fi, fi.node))
+        for node, name, call in muts:
+            out.append(Finding("C06-R7", f"{fi.qualname} | `{name}` mutated after it was handed to {ast.unparse(call.func)}",
+                               f"`{norm(node)[:80]}` mutates the object that {ast.unparse(call.func)}(...) constructed at line {call.lineno} still refers to: the already queued PDU's content changes (length fields no longer match)", loc(fi, node)))
+    if n_sites == 0:
+        raise AnalysisError("no PDU construction taking a local object found in the destination handler (rule blind)")
     ev.extra["explanation"] = "every NAK-construction event of the destination handler's ATS (requests, scope, metadata/tracker state at that moment) and syntax-tree rules on the deferred NAK builder and the EOF handler; the exactness of the requested byte set is NOT decided"
     ev.assume("exactness of the tracker's content is C18; that the requested set equals the missing set over all arrival histories needs an inductive invariant over tracker, offsets and stored bytes and is not decided")
     return out
